@@ -303,6 +303,12 @@ func runC15(c *eng.Ctx) {
 				continue
 			}
 		}
+		// an enforcer made in this very function (casbin.NewEnforcer's result) is not shared yet: nobody can race with it
+		if ci, isCall := s.Instr.(ssa.CallInstruction); isCall && len(ci.Common().Args) > 0 {
+			if mk := eng.AsCall(extractTuple(eng.Strip(ci.Common().Args[0]))); mk != nil && strings.HasPrefix(eng.CalleeRef(&mk.Call), "github.com/casbin/casbin/v2.NewEnforcer") {
+				continue
+			}
+		}
 		write := strings.HasSuffix(s.Callee, "LoadPolicy")
 		held := eng.LockHeldAt(s.Fn, s.Instr, lockField, write)
 		c.Check(held, s.Callee+" in "+s.Outer(), c.Pos(s.Instr),
@@ -310,7 +316,15 @@ func runC15(c *eng.Ctx) {
 			"the enforcer is used without holding authzLock"+map[bool]string{true: " exclusively", false: ""}[write]+": a reload can race with a decision")
 	}
 	c.WhoMayCall("Enforce", []string{"github.com/casbin/casbin/v2.Enforcer.Enforce"}, []string{"server.(*apiServer).enforcePolicy"}, []string{"server.(*apiServer).enforcePolicy"})
-	c.Floor(7)
+	c.Floor(6) // the six Enforce-side obligations; the reload's LoadPolicy site exists only in the in-place model (R15.9 demands a reload either way)
+
+	// ---- R15.9 a reload reaches the decision; R15.10 the authorisation settings are written only by the configuration loader
+	c.Rule("R15.9", "K5")
+	ruleReloadReachesDecision(c)
+	c.Floor(2)
+	c.Rule("R15.10", "K3")
+	ruleAuthzSwitchWriters(c)
+	c.Floor(4)
 
 	// ---- R15.7 acquire/release pairing of the enforcer lock
 	c.Rule("R15.7", "K2")
@@ -483,4 +497,12 @@ func storedAfter(s eng.Site, field string) bool {
 		}
 	})
 	return pub
+}
+
+// extractTuple returns the tuple a value was extracted from, or the value itself.
+func extractTuple(v ssa.Value) ssa.Value {
+	if e, ok := v.(*ssa.Extract); ok {
+		return e.Tuple
+	}
+	return v
 }
